@@ -4,6 +4,11 @@ import json, os, subprocess
 V = os.path.dirname(os.path.abspath(__file__))
 
 CHECKS = {
+ 'C01': dict(cat='model_checking', tech='bounded exhaustive shape enumeration of the real belt code against a spec-level reference model; complete finite domain for the FMT block count',
+             text='Every belt mechanism on the full cross product of key length/value classes x IV classes (incl. counters that carry out of every word and wrap 2^128) x data classes x EVERY length in the range '
+                  'crossing all internal block/threshold boundaries, compared octet-for-octet with an independent specification-level model (gated by the appendix vectors) and inverted; unwrap '
+                  'rejects all single-bit alterations; the FMT block count is checked on its complete domain (2..65536 x 1..300).',
+             note='trusted: ref/belt.py (vector-gated), gcc -O2 build; operand values by alphabets, shapes exhaustive within bounds', ref='4/C01'),
  'C18': dict(cat='model_checking', tech='stateless preemption-bounded schedule enumeration (DFS, forked executions) of the real mt.c/rng.c under a serialising scheduler with vector-clock race detection; linearisation replay; free-running ThreadSanitizer pass',
              text='All schedules with <= 2 (thorough: 3) preemptions of 2-3 thread programs over {rngCreate, rngStepR, rngStepR2, rngRekey, rngIsValid, rngClose}, '
                   'mtCallOnce and the atomic counter primitives, choice points at every mutex/CAS/atomic operation of the real code; on each schedule a '
